@@ -28,9 +28,12 @@ def runCase (c : Json) : Json :=
     if ms.any Option.isNone then jerr "not-streaming"
     else
       let xs := prefixOf (sourceFn base (jint c "delta") (jbool c "dict")) (jnat c "n")
-      let o := pipeOuts (ms.filterMap id) xs
+      let st := Stream.runPipe (ms.filterMap id) (src xs)
+      let o := st.outs
       let k := jnat c "k"
-      jo [("outs", jl ((o.take k).map outJ)), ("enough", jb (decide (k ≤ o.length))), ("total", jn o.length)]
+      -- `fin`: the pipeline is known to end (stamps of the end) although fewer than k results exist
+      jo [("outs", jl ((o.take k).map outJ)), ("enough", jb (decide (k ≤ o.length))), ("total", jn o.length),
+          ("fin", match st.fin with | some (p, a) => jl [jn p, jn a] | none => Json.null)]
 
 def handle (req : Json) : Json :=
   jo [("res", jl ((jarr req "cases").map runCase))]
